@@ -553,6 +553,60 @@ func runC02(cfg config) {
 	for i := 0; i < 3*scale; i++ {
 		doResource("Bundle", 3)
 	}
+	// ---- every enumerated code of the schema: its System string is the FHIR code (exhaustive) --------------------------
+	{
+		var codeBad []string
+		nCodes := 0
+		seenMD := map[string]bool{}
+		var visit func(md protoreflect.MessageDescriptor)
+		visit = func(md protoreflect.MessageDescriptor) {
+			if seenMD[string(md.FullName())] {
+				return
+			}
+			seenMD[string(md.FullName())] = true
+			if vf := md.Fields().ByName("value"); vf != nil && vf.Kind() == protoreflect.EnumKind && isCodeWrapper(md) {
+				vals := vf.Enum().Values()
+				for i := 0; i < vals.Len(); i++ {
+					ev := vals.Get(i)
+					if ev.Number() == 0 {
+						continue
+					}
+					m := newMessage(md)
+					m.Set(vf, protoreflect.ValueOfEnum(ev.Number()))
+					want := strings.ReplaceAll(strings.ToLower(string(ev.Name())), "_", "-")
+					if orig, ok := proto.GetExtension(ev.Options(), apb.E_FhirOriginalCode).(string); ok && orig != "" {
+						want = orig
+					}
+					nCodes++
+					var got any
+					var err error
+					protect(func() { got, err = system.From(m.Interface()) })
+					if gs, ok := got.(system.String); err != nil || !ok || string(gs) != want {
+						codeBad = append(codeBad, fmt.Sprintf("%s.%s: got %v (%v) want %q", md.FullName(), ev.Name(), got, err, want))
+					}
+				}
+			}
+			for i := 0; i < md.Fields().Len(); i++ {
+				if m := md.Fields().Get(i).Message(); m != nil {
+					visit(m)
+				}
+			}
+			for i := 0; i < md.Messages().Len(); i++ {
+				visit(md.Messages().Get(i))
+			}
+		}
+		for _, md := range resourceDescriptors() {
+			visit(md)
+		}
+		if len(codeBad) > 30 {
+			codeBad = codeBad[:30]
+		}
+		sink.extra["enumerated_codes_checked"] = nCodes
+		sink.extra["enumerated_code_mismatches"] = codeBad
+		// recorded as one query on a one-element tree whose value flag is the outcome of the sweep
+		sink.add(fmt.Sprintf("([[]; %s], [(1%%N, [])], CNode 1 1 1 [], [([CName 1], OOk [1%%N], %s)]), tt", coqBytes("Patient"), coqBool(len(codeBad) == 0)),
+			fmt.Sprintf("every enumerated code of the schema (%d values): system.From gives the FHIR code | 0:sweep=>%d mismatches %v", nCodes, len(codeBad), codeBad), "code-sweep", "code-sweep")
+	}
 	if len(valueBad) > 30 {
 		valueBad = valueBad[:30]
 	}
